@@ -41,6 +41,9 @@ def run(ctx, crate):
     from .c03 import rule_orphan_split, rule_orphan_moved
     rule_orphan_moved(ctx, crate)
     rule_orphan_split(ctx, crate)
+    # "for every interleaving": the suspend window (clear, closure, redraw) is one critical section of the MultiState lock
+    from .c03 import rule_suspend_protocol
+    rule_suspend_protocol(ctx, crate)
 
 
 def rule_multi_exclusive(ctx, crate, rule="R-MULTI-EXCLUSIVE"):
